@@ -746,7 +746,7 @@ def pad_suite(ctx, st, rng):
             nodes, edges = label_device(rng, shape, style)
             N = len(nodes)
             for n in range(1, N + 2):
-                for rep in range(2 if ctx.thorough else 1):
+                for rep in range(6 if ctx.thorough else 2):
                     kind = rng.choice(["sub", "sub", "sub", "default", "foreign"])
                     if n > N:
                         wn = (list(nodes) + ["zz%d" % i for i in range(n)])[:n] if rng.random() < 0.5 else None
@@ -789,7 +789,7 @@ def assert_suite(ctx, st, rng):
     the model, on accepted and rejected circuits (wrong names, duplicated names, fewer
     qubits, off-edge gates, 3-qubit gates, 2- and 3-qubit measurements, non-native gates)."""
     NG = SPEC["NativeGates"]
-    count = 260 if ctx.thorough else 90
+    count = 900 if ctx.thorough else 300
     for i in range(count):
         enc = Enc()
         shape = rng.choice(list(SHAPES))
@@ -860,7 +860,7 @@ def star_suite(ctx, st, rng):
     """StarConnectivityPlacer against `starPlace`: every centre label and wire order,
     gates on and off the centre, measurements of 1-3 qubits, 3-qubit gates, non-star graphs."""
     SP = SPEC["StarConnectivityPlacer"]
-    count = 160 if ctx.thorough else 60
+    count = 600 if ctx.thorough else 200
     for i in range(count):
         enc = Enc()
         shape = "star5" if rng.random() < 0.85 else rng.choice(["line5", "ring5", "tee5", "line4"])
@@ -901,7 +901,7 @@ def star_suite(ctx, st, rng):
 def restrict_suite(ctx, st, rng):
     """restrict_connectivity_qubits (also through Passes(on_qubits=...)) against `restrict`."""
     rc = SPEC["restrict_connectivity_qubits"]
-    count = 120 if ctx.thorough else 50
+    count = 400 if ctx.thorough else 150
     for i in range(count):
         enc = Enc()
         shape = rng.choice(list(SHAPES))
@@ -1100,6 +1100,7 @@ def process_driver(ctx, st):
                 want_states.append((s[0], s[1], s[2], lay))
             if got_states != want_states:
                 st.note("pipe", f"pass-by-pass states differ ({case_label(info)}): model {got_states} real {want_states}", info)
+                continue   # the contracts are evaluated on the model's states: meaningless once they differ
             elif want_states and (want_states[-1] != final):
                 st.note("pipe", f"Passes returned {final}, its last pass produced {want_states[-1]} ({case_label(info)})", info)
             elif not want_states and final[3] is not None:
@@ -1125,17 +1126,15 @@ def search_suite(ctx, rng):
     unrolls = ["none"] + NATIVE_NAMES
     combos = [(p, r, u) for p in placers for r in routers for u in unrolls]
     rng.shuffle(combos)
-    if not ctx.thorough:
-        combos = combos[: 70]
     for p, r, u in combos:
         shape = "star5" if "Star" in (p, r) else rng.choice(MAIN_SHAPES)
         cases.append(make_case(rng, shape=shape, placer=p, router=r, unroll=u, restrict=False if "Star" in (p, r) else "auto",
                                ngates=rng.randint(3, 9)))
     # random
-    for _ in range(2600 if ctx.thorough else 330):
+    for _ in range(9000 if ctx.thorough else 1300):
         cases.append(make_case(rng))
     # circuits smaller than the device with permuted wire-name subsets, measured registers
-    for _ in range(500 if ctx.thorough else 80):
+    for _ in range(2500 if ctx.thorough else 350):
         cases.append(make_case(rng, shape=rng.choice(MAIN_SHAPES), pre=True, small=True, mode="det", meas=rng.choice(["trailing", "mid"]),
                                router=rng.choice(["ShortestPaths", "Sabre"]), ngates=rng.randint(2, 9)))
     for case in cases:
@@ -1165,7 +1164,7 @@ def placer_direct_suite(ctx, rng):
     """(d) every placer called on its own: queue untouched (same gate objects), wire names a
     permutation of the nodes, nqubits kept, connectivity graph untouched, second call valid."""
     bad = []
-    for i in range(160 if ctx.thorough else 60):
+    for i in range(600 if ctx.thorough else 200):
         shape = rng.choice(MAIN_SHAPES)
         kind = rng.choice(["Random", "Subgraph", "ReverseTraversal", "Star"] if shape == "star5" else ["Random", "Subgraph", "ReverseTraversal"])
         nodes, edges = label_device(rng, shape, rng.choice(["id", "perm", "gap", "str"]))
@@ -1230,6 +1229,14 @@ def run_default(case):
     try:
         b = Stub(list(case["nodes"]), [tuple(e) for e in case["edges"]], list(case["natives_list"]))
         _Global._backend, _Global._transpiler = b, None
+        if case.get("custom"):
+            # a user pipeline installed with set_transpiler is the one circuit() uses
+            nat0 = NativeGates[list(case["natives_list"])]
+            custom = Passes([Preprocessing(), Random(seed=case["custom"]), ShortestPaths(seed=case["custom"]), Unroller(nat0)],
+                            connectivity=build_graph(case["nodes"], case["edges"]), native_gates=nat0)
+            _Global.set_transpiler(custom)
+            if _Global.transpiler() is not custom:
+                bad.append(("default:set_transpiler", "get_transpiler() does not return the pipeline given to set_transpiler"))
         t = _Global.transpiler()
         D = build_graph(case["nodes"], case["edges"])
         for k in range(case.get("calls", 1)):
@@ -1275,7 +1282,7 @@ def default_suite(ctx, rng):
     failing = []
     nat_lists = [["CZ", "GPI2", "RZ", "Z", "I", "M"], ["CZ", "U3", "RZ", "Z", "I", "M"], ["iSWAP", "GPI2", "RZ", "Z", "I", "M"],
                  ["iSWAP", "U3", "RZ", "Z", "I", "M"], ["CZ", "iSWAP", "GPI2", "RZ", "Z", "I", "M"]]
-    for i in range(40 if ctx.thorough else 14):
+    for i in range(200 if ctx.thorough else 50):
         shape = rng.choice(MAIN_SHAPES + ["line3", "grid6"])
         nodes, edges = label_device(rng, shape, rng.choice(["id", "perm", "gap", "str"]))
         N = len(nodes)
@@ -1286,6 +1293,8 @@ def default_suite(ctx, rng):
         case = {"nodes": nodes, "edges": edges, "natives_list": nat_lists[i % len(nat_lists)], "n": n, "wire_names": wn,
                 "gates": random_recipe(rng, n, rng.randint(1, 8), "det", "trailing"), "calls": rng.choice([1, 2]),
                 "inputs": [[rng.randrange(2) for _ in range(n)] for _ in range(2)]}
+        if i % 3 == 2:
+            case["custom"] = rng.randrange(1, 1000)
         try:
             bad = env["run_default"](case)
         except Exception as e:
@@ -1331,7 +1340,8 @@ def shrink(case, calls, same, kinds):
 def fail_key(case, kind, detail):
     """stable key: pass that owns the failure + kind."""
     labs = {d[0]: (d[1] if len(d) > 1 else "") for d in case["passes"]}
-    if kind == "raises:PlacementError" and labs.get("placer") == "Star" and "more than 2 qubits" in detail \
+    if kind in ("raises:PlacementError", "reuse") and labs.get("placer") == "Star" and "PlacementError" in detail \
+            and "more than 2 qubits" in detail \
             and any(c.startswith("gates.M(") and c.count(",") >= 2 + c.count("=") for c in case["gates"]):
         return "raises:star-placer-measurement"
     if kind == "registers-dropped":
@@ -1385,7 +1395,7 @@ def run(ctx):
     sort_suite(ctx, st, rng)
     failing, cases = search_suite(ctx, rng)
     # the recorded pipeline replay on a subset of the search cases (all pass combinations)
-    sub = cases[: (900 if ctx.thorough else 200)]
+    sub = cases[: (3000 if ctx.thorough else 700)]
     for case in sub:
         try:
             pipe_record(ctx, st, case)
@@ -1397,7 +1407,7 @@ def run(ctx):
 
     # failing inputs on the real code ------------------------------------------------
     seen = set()
-    corr_of = {"padding": ["C11_corr_pad"], "placement": ["C11_corr_pipeline"], "layout": ["C11_corr_pipeline"],
+    corr_of = {"padding": ["C11_corr_pad", "C11_corr_pipeline"], "placement": ["C11_corr_pipeline"], "layout": ["C11_corr_pipeline"],
                "accept:is_satisfied": ["C11_corr_asserts", "C11_corr_pipeline"], "accept:connectivity": ["C11_corr_pipeline", "C11_corr_contracts"],
                "accept:decomposition": ["C11_corr_pipeline", "C11_corr_contracts"], "connectivity": ["C11_corr_contracts"],
                "decomposition": ["C11_corr_contracts"], "measurements": ["C11_corr_contracts"], "registers-dropped": ["C11_corr_contracts"], "restrict": ["C11_corr_restrict"]}
@@ -1410,7 +1420,7 @@ def run(ctx):
             seen.add(key)
             cur = shrink(case, calls, same, {kind}) if kind != "harness" else case
             broken = ["C11_search_property"] + corr_of.get(kind, [])
-            if kind.startswith("raises"):
+            if kind.startswith("raises") or key.startswith("raises:"):
                 broken += ["C11_corr_pipeline", "C11_corr_star_placer"]
             ctx.fail(key, f"pipeline {case_label(cur)} on device nodes {cur['nodes']} edges {cur['edges']} on_qubits {cur['on_qubits']}, "
                           f"circuit n={cur['n']} wire_names={cur['wire_names']} gates={cur['gates']}: {det}"[:900],
@@ -1435,6 +1445,18 @@ def run(ctx):
                 ctx.fail("raises:star-placer-measurement", f"StarConnectivityPlacer refuses a circuit because of a measurement on more than two qubits: {info['gates']} ({info['error']})",
                          code, expected="a placement (measurements are not gates the placer has to route)", observed=info["error"], broken=[obname, "C11_search_property"])
 
+    for info in (st.cases.get("padprop", []) + st.cases.get("pad", []))[:1]:
+        code = (SPEC_SRC + f"\nG = build_graph({info['nodes']!r}, {info['edges']!r}); c = build_circuit({info['n']}, {info['wire_names']!r}, {info['gates']!r})\n"
+                "before = snapshot(c); own = list(c.wire_names)\n"
+                "try:\n    r = Preprocessing(G)(c)\nexcept ValueError:\n    r = None\n"
+                "fits = set(own) <= set(G.nodes) and len(set(own)) == len(own) and len(own) <= len(G.nodes)\n"
+                "assert (r is not None) == fits, 'refusal'\n"
+                "if r is not None:\n"
+                "    assert list(r.wire_names[:len(own)]) == own and sorted(map(repr, r.wire_names)) == sorted(map(repr, G.nodes)), r.wire_names\n"
+                "    assert r.nqubits == len(G.nodes) and snapshot(r)[2] == before[2] and snapshot(c) == before\n")
+        ctx.fail("Preprocessing:padding", f"Preprocessing on device nodes {info['nodes']} and a circuit with n={info['n']} wire_names={info['wire_names']} does not keep the circuit's wires in position / append the unused nodes / keep the queue",
+                 code, expected="own wires first, unused device nodes appended, queue unchanged", observed=st.detail.get("padprop", st.detail.get("pad", ""))[:300],
+                 broken=["C11_corr_pad", "C11_corr_pipeline"])
     ctx.ob("C11_search_property", not failing, "search", f"{len(failing)} failing cases; first: {failing[0][3][:2]}" if failing else "")
     ctx.ob("C11_search_placers", not pbad, "search", f"{len(pbad)} failing placer calls" if pbad else "")
     ctx.ob("C11_search_default_transpiler", not dbad, "search", f"{len(dbad)} failing cases; first: {dbad[0][1][:2]}" if dbad else "")
